@@ -123,7 +123,7 @@ variable {src : Bytes} {scope : List (Bytes × List Chunk)}
 
 /-! ### the helpers of the two algorithms respect the relation -/
 
-theorem lastOf_rel {dstA : List SubA} {dst : List Subquery} (h : ListRel src scope dstA dst) (k : Nat) :
+theorem lastOf_rel_splita {dstA : List SubA} {dst : List Subquery} (h : ListRel src scope dstA dst) (k : Nat) :
     (lastOfA dstA k = none ∧ lastOf dst k = none) ∨
       ∃ a s, lastOfA dstA k = some a ∧ lastOf dst k = some s ∧ SubRel src scope a s := by
   unfold lastOfA lastOf
@@ -134,7 +134,7 @@ theorem lastOf_rel {dstA : List SubA} {dst : List Subquery} (h : ListRel src sco
     · right; exact ⟨a, b, by simp, by simp, hab⟩
   · left; exact ⟨rfl, rfl⟩
 
-theorem chain_rel {dstA : List SubA} {dst : List Subquery} (h : ListRel src scope dstA dst) (k : Nat)
+theorem chain_rel_splita {dstA : List SubA} {dst : List Subquery} (h : ListRel src scope dstA dst) (k : Nat)
     (source : Option Ident) : SubRel src scope (chainA dstA k source) (chainSubquery dst k source) := by
   refine ⟨?_, rfl, rfl, rfl, ?_⟩
   · simp [chainA, chainSubquery, h.length_eq]
@@ -146,7 +146,7 @@ theorem chain_rel {dstA : List SubA} {dst : List Subquery} (h : ListRel src scop
       · simp [SrcRel, hab.name]
     · simp [SrcRel]
 
-theorem setLast_rel {dstA : List SubA} {dst : List Subquery} (h : ListRel src scope dstA dst)
+theorem setLast_rel_splita {dstA : List SubA} {dst : List Subquery} (h : ListRel src scope dstA dst)
     {fA : SubA → SubA} {f : Subquery → Subquery}
     (hf : ∀ a s, SubRel src scope a s → SubRel src scope (fA a) (f s)) :
     ListRel src scope (setLastA dstA fA) (setLast dst f) := by
